@@ -65,10 +65,12 @@ def check_enum(E, declared, span, rng, report, count, where, others=()):
     xs = integers(declared, span, rng)
     # a second pass re-constructs a sample in another order (same object every time for members)
     xs = xs + rng.sample(xs, min(len(xs), 200))
-    for n in xs:
+    for k, n in enumerate(xs):
         count("constructions-checked")
         try:
-            x = E(n)
+            # the signature is (value, names=None, *, module, qualname, type, start): the integer may also be
+            # passed by keyword, and the defaults may be spelled out
+            x = E(n) if k % 7 < 5 else E(value=n) if k % 7 == 5 else E(n, names=None, module=None, qualname=None, type=None)
         except Exception as e:
             report("construction-raises", "%s(%d) raised %r" % (where, n, e), {"enum": where, "n": n})
             continue
